@@ -4,6 +4,7 @@
    (regenerated on every run) and the committed lists of model/SharedStateAllow.v. *)
 From Coq Require Import List String NArith Bool.
 From Verif Require Import model.Conc model.SharedStateAllow gen.SharedState.
+From Verif Require model.FlowCache.
 Import ListNotations.
 Open Scope N_scope.
 
@@ -45,3 +46,22 @@ Definition mismatches (d : discipline) (observed_races : N) (cs : list cache_obs
   if discipline_ok d
   then (if N.eqb observed_races 0 then [] else [1000000 + observed_races]) ++ bad_rounds 0 cs
   else [].
+
+(* ---- the flow cache model against flowAssets over the static source (review round 2, finding 2) ----
+   One case: a source (in list order; names case-folded to numbers; d_body = position of the asset in the source, which
+   the driver reads back from the revision of the flow it got), the look-ups performed before on the SAME flowAssets,
+   the look-up observed, and what came back: 0 = error, p + 1 = the definition of the asset at position p.  Sources with
+   clashing names, inner uuids / names that differ from the asset's and (some) duplicate asset uuids. *)
+Record lookup_case := { lc_src : FlowCache.source; lc_ops : list FlowCache.lookup_op; lc_op : FlowCache.lookup_op; lc_impl : N }.
+
+Definition lookup_model (c : lookup_case) : N :=
+  match snd (FlowCache.do_op (lc_src c) (FlowCache.after (lc_src c) (lc_ops c)) (lc_op c)) with
+  | None => 0
+  | Some d => N.of_nat (S (FlowCache.d_body d))
+  end.
+
+Fixpoint bad_lookups (i : N) (cs : list lookup_case) : list N :=
+  match cs with
+  | [] => []
+  | c :: t => (if N.eqb (lookup_model c) (lc_impl c) then [] else [2000000 + i]) ++ bad_lookups (i + 1) t
+  end.
